@@ -241,11 +241,13 @@ pub fn run_phase(inv: &Invocation, script: &Script, script_path: &Path) -> Resul
         cmd.env("VERIF_SHIM_PLAN", plan);
     }
     let mut child = cmd.spawn().map_err(|e| format!("spawn simbp: {e}"))?;
+    let guard = pool::kill_after(child.id(), pool::child_time_limit());
     let mut err = String::new();
     if let Some(mut s) = child.stderr.take() {
         let _ = s.read_to_string(&mut err);
     }
     let status = child.wait().map_err(|e| e.to_string())?;
+    let timed_out = guard.finish();
     if status.code() == Some(97) {
         return Err(format!("simbp reported a harness error: {err}"));
     }
@@ -254,7 +256,7 @@ pub fn run_phase(inv: &Invocation, script: &Script, script_path: &Path) -> Resul
         signal: status.signal(),
         markers: read_markers(&script.marker_dir),
         stderr_head: err.chars().take(400).collect(),
-        timed_out: false,
+        timed_out,
     })
 }
 
